@@ -8,50 +8,7 @@ fn radial(elev: u8, az: u16, ts: i64) -> Radial {
     Radial::new(ts, az, 0.0, 0.5, RadialStatus::IntermediateRadialData, elev, 0.0, None, None, None, None, None, None, None)
 }
 
-/// from_radials: non-empty sweeps whose concatenation is the input, uniform labels, adjacent sweeps differ
-fn from_radials_n(n: usize) {
-    let e: [u8; 3] = kani::any();
-    let mut v = Vec::with_capacity(3);
-    let mut i = 0;
-    while i < n {
-        v.push(radial(e[i], i as u16, 0));
-        i += 1;
-    }
-    let sweeps = Sweep::from_radials(v);
-    let mut k = 0usize;
-    let mut si = 0;
-    while si < sweeps.len() {
-        let s = &sweeps[si];
-        assert!(!s.radials().is_empty());
-        if si > 0 {
-            assert!(sweeps[si - 1].elevation_number() != s.elevation_number());
-        }
-        let mut ri = 0;
-        while ri < s.radials().len() {
-            let r = &s.radials()[ri];
-            assert!(k < n);
-            assert!(r.azimuth_number() == k as u16 && r.elevation_number() == e[k]);
-            assert!(r.elevation_number() == s.elevation_number());
-            k += 1;
-            ri += 1;
-        }
-        si += 1;
-    }
-    assert!(k == n);
-    assert!((n == 0) == sweeps.is_empty());
-    core::mem::forget(sweeps);
-}
-
-#[kani::proof]
-#[kani::unwind(5)]
-fn w09_from_radials_n1() { from_radials_n(1); }
-#[kani::proof]
-#[kani::unwind(5)]
-fn w09_from_radials_n2() { from_radials_n(2); }
-#[kani::proof]
-#[kani::unwind(5)]
-fn w09_from_radials_n3() { from_radials_n(3); }
-
+// (no witness for Sweep::from_radials: CBMC needs > 24 GB for it even with 1-3 radials — drop glue of Vec<Radial>)
 /// merge: Err iff elevation numbers differ; otherwise the union ordered by azimuth number, ties first-then-second
 /// (radials are tagged through their timestamp: 0,1 for the first sweep, 10,11 for the second)
 #[kani::proof]
